@@ -141,7 +141,7 @@ def main(tier):
 
 def replay(obj):
     r = obj['replay']
-    if r.get('engine') != 'E1-trace':
+    if r.get('engine') != 'E1-trace' or 'variant' not in r:
         return pcommon.replay(obj)
     print('variant', r['variant'], 'order', r['order'])
     k = 0
